@@ -32,7 +32,7 @@ META = {
 @st.composite
 def cases(draw, tier):
   mspec = draw(G.model_specs(max_nodes=8 if tier == 'thorough' else 6, max_subgraphs=2,
-                             reuse_const=True))
+                             reuse_const=True, ops=G.ALL_OPS + ['GATE']))   # GATE: a BOOL tensor
   names = engine.op_out_names(mspec)
   if draw(st.integers(0, 2)) == 0:
     recipe = {'kind': 'shipped', 'name': draw(st.sampled_from(engine.SHIPPED_NAMES))}
